@@ -100,8 +100,45 @@ pub fn stages(prop: &str, tier: &str) -> Vec<Stage> {
             v.push(stage("triples of 1-op threads, books B1-B5", programs_1op(3, &books5, &alpha), Some(2)));
             v.push(stage("pairs of 2-op threads, reduced alphabet, B1-B4", programs_2x2(&BOOKS4, &small), Some(2)));
             v.push(stage("pairs of 1-op threads on a 70-order book", programs_1op(2, &[Book::B9, Book::B10], &big), Some(1)));
+            {
+                // levels with a long history behind them: > 1024 stale tickets (B13), dead tickets outnumbering the live orders (B14)
+                let hist: Vec<Book> = (1019u16..=1028).map(Book::Hist).collect();
+                let dead: Vec<Book> = [62u16, 63, 64, 66].iter().map(|n| Book::Dead(*n)).collect();
+                let mut st = stage(
+                    "pairs of 1-op threads on levels with 1019..1028 amendments behind them",
+                    programs_1op(2, &hist, &[COp::Amend(1, 8), COp::Cancel(2), COp::Cancel(3), COp::Match(2), COp::Cancel(1)]),
+                    Some(1),
+                );
+                st.exec.max_steps = 40_000;
+                v.push(st);
+                let mut st = stage(
+                    "pairs of 1-op threads on 70-order levels where 62..66 orders were cancelled",
+                    programs_1op(2, &dead, &[COp::Cancel(166), COp::Cancel(167), COp::Match(20), COp::Match(2)]),
+                    Some(2),
+                );
+                st.exec.max_steps = 40_000;
+                v.push(st);
+            }
             v.push(stage("victim programs: one fine-grained operation against 3 call-atomic operations of another thread, B1 B2 B3 B12", programs_victim(&[Book::B1, Book::B2, Book::B3, Book::B12], &alpha, &[COp::Add, COp::Match(2), COp::Match(20), COp::Cancel(1), COp::Amend(1, 2)], 3), None));
         } else {
+            {
+                let hist: Vec<Book> = (1017u16..=1030).map(Book::Hist).collect();
+                let dead: Vec<Book> = (60u16..=67).map(Book::Dead).collect();
+                let mut st = stage(
+                    "pairs of 1-op threads on levels with 1017..1030 amendments behind them",
+                    programs_1op(2, &hist, &[COp::Amend(1, 8), COp::Amend(2, 1), COp::Cancel(2), COp::Cancel(3), COp::Match(2), COp::Match(20), COp::Cancel(1), COp::Add]),
+                    Some(2),
+                );
+                st.exec.max_steps = 40_000;
+                v.push(st);
+                let mut st = stage(
+                    "pairs of 1-op threads on 70-order levels where 60..67 orders were cancelled",
+                    programs_1op(2, &dead, &[COp::Cancel(166), COp::Cancel(167), COp::Match(20), COp::Match(2), COp::Add, COp::Read]),
+                    Some(2),
+                );
+                st.exec.max_steps = 40_000;
+                v.push(st);
+            }
             v.push(stage("victim programs: one fine-grained operation against 4 call-atomic operations of another thread, seven books", programs_victim(&[Book::B1, Book::B2, Book::B3, Book::B4, Book::B7, Book::B8, Book::B12], &wide, &[COp::Add, COp::Match(2), COp::Match(20), COp::Cancel(1), COp::Amend(1, 2)], 4), None));
             v.push(stage("pairs and triples of 1-op threads on a 70-order book", { let mut p = programs_1op(2, &[Book::B9, Book::B10], &big); p.extend(programs_1op(3, &[Book::B9], &big)); p }, Some(2)));
             // a wider alphabet for the unbounded two-thread programs: iceberg adds, amend to zero display
@@ -823,7 +860,7 @@ pub fn replay(doc: &Value) -> i32 {
 
 #[derive(serde::Deserialize)]
 struct ProgramDe {
-    book: String,
+    book: Value,
     threads: Vec<Vec<Value>>,
     #[serde(default)]
     coarse: Vec<bool>,
@@ -831,7 +868,16 @@ struct ProgramDe {
 
 impl ProgramDe {
     fn into_program(self) -> Program {
-        let book = match self.book.as_str() {
+        if let Some(o) = self.book.as_object() {
+            let book = if let Some(n) = o.get("Hist").and_then(|v| v.as_u64()) {
+                Book::Hist(n as u16)
+            } else {
+                Book::Dead(o.get("Dead").and_then(|v| v.as_u64()).unwrap_or(0) as u16)
+            };
+            let threads = self.threads.iter().map(|t| t.iter().map(op_from_value).collect()).collect();
+            return Program { book, threads, coarse: self.coarse };
+        }
+        let book = match self.book.as_str().unwrap_or("") {
             "B1" => Book::B1,
             "B2" => Book::B2,
             "B3" => Book::B3,
@@ -845,49 +891,7 @@ impl ProgramDe {
             "B12" => Book::B12,
             _ => Book::B5,
         };
-        let op = |v: &Value| -> COp {
-            if let Some(s) = v.as_str() {
-                return match s {
-                    "Add" => COp::Add,
-                    "AddIce" => COp::AddIce,
-                    _ => COp::Read,
-                };
-            }
-            if let Some(o) = v.as_object() {
-                if let Some(x) = o.get("Match") {
-                    return COp::Match(x.as_u64().unwrap_or(0));
-                }
-                if let Some(x) = o.get("Cancel") {
-                    return COp::Cancel(x.as_u64().unwrap_or(0));
-                }
-                if let Some(x) = o.get("Move") {
-                    return COp::Move(x.as_u64().unwrap_or(0));
-                }
-                if let Some(x) = o.get("MoveVia") {
-                    let a = x.as_array().cloned().unwrap_or_default();
-                    return COp::MoveVia(
-                        a.first().and_then(|v| v.as_u64()).unwrap_or(1) as u8,
-                        a.get(1).and_then(|v| v.as_u64()).unwrap_or(0),
-                    );
-                }
-                if let Some(x) = o.get("AmendVia") {
-                    let a = x.as_array().cloned().unwrap_or_default();
-                    return COp::AmendVia(
-                        a.first().and_then(|v| v.as_u64()).unwrap_or(1) as u8,
-                        a.get(1).and_then(|v| v.as_u64()).unwrap_or(0),
-                        a.get(2).and_then(|v| v.as_u64()).unwrap_or(0),
-                    );
-                }
-                if let Some(x) = o.get("Amend") {
-                    let a = x.as_array().cloned().unwrap_or_default();
-                    return COp::Amend(
-                        a.first().and_then(|v| v.as_u64()).unwrap_or(0),
-                        a.get(1).and_then(|v| v.as_u64()).unwrap_or(0),
-                    );
-                }
-            }
-            COp::Read
-        };
+        let op = op_from_value;
         Program {
             book,
             threads: self.threads.iter().map(|t| t.iter().map(op).collect()).collect(),
@@ -1046,3 +1050,47 @@ pub fn c15_stats_programs(tier: &str, cap: Duration) -> (u64, u64, Vec<String>, 
     msgs.dedup();
     (n, scheds, msgs, smp)
 }
+
+fn op_from_value(v: &Value) -> COp {
+            if let Some(s) = v.as_str() {
+                return match s {
+                    "Add" => COp::Add,
+                    "AddIce" => COp::AddIce,
+                    _ => COp::Read,
+                };
+            }
+            if let Some(o) = v.as_object() {
+                if let Some(x) = o.get("Match") {
+                    return COp::Match(x.as_u64().unwrap_or(0));
+                }
+                if let Some(x) = o.get("Cancel") {
+                    return COp::Cancel(x.as_u64().unwrap_or(0));
+                }
+                if let Some(x) = o.get("Move") {
+                    return COp::Move(x.as_u64().unwrap_or(0));
+                }
+                if let Some(x) = o.get("MoveVia") {
+                    let a = x.as_array().cloned().unwrap_or_default();
+                    return COp::MoveVia(
+                        a.first().and_then(|v| v.as_u64()).unwrap_or(1) as u8,
+                        a.get(1).and_then(|v| v.as_u64()).unwrap_or(0),
+                    );
+                }
+                if let Some(x) = o.get("AmendVia") {
+                    let a = x.as_array().cloned().unwrap_or_default();
+                    return COp::AmendVia(
+                        a.first().and_then(|v| v.as_u64()).unwrap_or(1) as u8,
+                        a.get(1).and_then(|v| v.as_u64()).unwrap_or(0),
+                        a.get(2).and_then(|v| v.as_u64()).unwrap_or(0),
+                    );
+                }
+                if let Some(x) = o.get("Amend") {
+                    let a = x.as_array().cloned().unwrap_or_default();
+                    return COp::Amend(
+                        a.first().and_then(|v| v.as_u64()).unwrap_or(0),
+                        a.get(1).and_then(|v| v.as_u64()).unwrap_or(0),
+                    );
+                }
+            }
+            COp::Read
+        }
